@@ -174,8 +174,15 @@ func (s *RefSketch) FitsAfter(extra float64, g int) bool {
 	if s.ValTotal > total {
 		total = s.ValTotal // after a mapping change only the multiset knows the weight
 	}
-	return (total+extra+1)*math.Ldexp(1, -g) < (1 << 50)
+	return (total+extra+1)*math.Ldexp(1, -g) < math.Ldexp(1, BudgetBits)
 }
+
+// BudgetBits: every count of a run (and count+1, which the wire format stores)
+// is an integer multiple of the run's granule below 2^BudgetBits, so sums of
+// counts are exact in any order. 50 leaves three spare bits; runs that aim at
+// full-length varfloat64 encodings (the lowest mantissa bits of count+1 set)
+// raise it to 52, which still keeps every such sum below 2^53 granules.
+var BudgetBits = 50
 
 // ItemAt returns the item holding the order statistic of 0-based rank k in a
 // sorted item list with integer multiplicities.
